@@ -140,7 +140,7 @@ def gen_session(rnd, ok_ids, bad_ids, length, hashseeds, mixes=(), src_content=N
                 ops.append(['write', q, rnd.choice(list(hip_ids))])
                 written[q] = ops[-1][2]
                 holders = [q]
-            q = rnd.choice(holders) if rnd.random() < 0.9 else npaths + 40          # sometimes a missing file
+            q = rnd.choice(holders) if rnd.random() < 0.9 else 45                   # sometimes a missing file
             if q == rel_target(cwd, 101) and rnd.random() < 0.7:
                 q = 101                                                               # ... by its relative name
             ops.append(['hip', k, q])
@@ -178,7 +178,7 @@ def gen_session(rnd, ok_ids, bad_ids, length, hashseeds, mixes=(), src_content=N
         elif x < 0.95:
             newclient()
         elif written:
-            ops.append(['cli', rnd.choice([q for q in geo() if q < npaths] or [npaths + 41])])
+            ops.append(['cli', rnd.choice([q for q in geo() if q < npaths] or [46])])
     s = {'ndirs': ndirs, 'npaths': npaths, 'cwd': cwd0, 'argv': ['u0', 'u1'],
          'hashseed': str(rnd.choice(hashseeds)), 'ops': ops, 'hip_contents': sorted(is_hip)}
     if src_content is not None:
@@ -203,6 +203,7 @@ def run_sessions(ctx, sessions, contents, tag):
         # the same file NAME occurs in several directories: a cache keyed on less than the whole path collides
         job['paths'] = [str(Path(job['dirs'][p % s['ndirs']]) / f'in{p // s["ndirs"]}.txt') for p in range(s['npaths'])]
         job['files'] = {rel_target(d, p): str(Path(job['dirs'][d]) / REL[p]) for d in range(s['ndirs']) for p in REL}
+        job['files'].update({q: str(Path(job['dirs'][0]) / f'never_written_{q}.txt') for q in (44, 45, 46)})
         job['rel'] = REL
         base.mkdir(parents=True, exist_ok=True)
         groups.setdefault(s['hashseed'], []).append(job)
